@@ -133,8 +133,14 @@ class Sim:
             self.current = me
             return
         cands = [x for x in r if x != me] or r
-        if me is not None and me in self.procs:
+        if me is not None and me in self.procs and \
+                self.procs[me]["yielding"]:
+            # a process polling a lock gives way in cyclic order (not a
+            # decision: the poll loop makes no progress of its own)
             self.procs[me]["yielding"] = False
+            later = [x for x in cands if x > me]
+            self.current = (later or cands)[0]
+            return
         k = E.choose(len(cands), "who runs next") if len(cands) > 1 else 0
         self.current = cands[k]
 
